@@ -8,7 +8,7 @@ use crate::token::variance::natural::{
     define_natural_invariant, BoundedVariantRange, OpenedUpperBound,
 };
 use crate::token::variance::ops::{self, Conjunction, Disjunction, Product};
-use crate::token::variance::{Boundedness, TokenVariance};
+use crate::token::variance::{Boundedness, TokenVariance, Variance};
 
 pub use crate::token::variance::invariant::term::{BoundaryTerm, SeparatedTerm, Termination};
 pub use crate::token::variance::invariant::text::{IntoNominalText, IntoStructuralText, Text};
@@ -145,9 +145,33 @@ impl TokenVariance<Depth> {
     pub fn is_exhaustive(&self) -> bool {
         !self.has_upper_bound()
     }
+
+    // Whether or not repeating this depth without an upper bound reaches every greater depth: it
+    // is zero, one or has no upper bound and a lower bound of at most one. Natural bounds do not
+    // express which depths within a range are matched.
+    fn is_contiguous(&self) -> bool {
+        match self {
+            Variance::Invariant(depth) => *depth == Depth::ZERO || *depth == Depth::ONE,
+            Variance::Variant(range) => {
+                range.upper().into_usize().is_none() && range.lower().into_usize() <= 1
+            },
+        }
+    }
 }
 
 impl BoundaryTerm<Depth> {
+    // Whether or not every branch of the term is contiguous when repeated. Consider
+    // `<{*/*/,*/*/*/*/}:1,>*`, which matches `a/b/c` but not `a/b/c/d`.
+    pub fn is_contiguous(&self) -> bool {
+        match self {
+            BoundaryTerm::Conjunctive(SeparatedTerm(_, ref term)) => term.is_contiguous(),
+            BoundaryTerm::Disjunctive(ref term) => term
+                .branches()
+                .map(AsRef::as_ref)
+                .all(TokenVariance::<Depth>::is_contiguous),
+        }
+    }
+
     pub fn is_exhaustive(&self) -> When {
         match self {
             BoundaryTerm::Conjunctive(SeparatedTerm(_, ref term)) => term.is_exhaustive().into(),
